@@ -147,15 +147,17 @@ def discharge(ob: Ob, timeout_s: int, use_cvc5=True):
         return sv.check(), sv
 
     # 1. everything, short budget (most obligations are immediate)
-    r, s = attempt(ob.assumptions, min(timeout_s, 4) * 1000)
+    r, s = attempt(ob.assumptions, min(timeout_s, 2) * 1000)
     # 2. relevance filtering (sound: proving from FEWER premises) keeps noisy nonlinear / library facts that share
     #    no symbol with the goal out of the solver's way
     if r == z3.unknown and len(ob.assumptions) > 12:
-        for rounds in (1, 2):
+        tried = set()
+        for rounds in (10 ** 6, 2, 1):
             sub = relevant(ob.assumptions, to_z3(goal), rounds)
-            if len(sub) == len(ob.assumptions):
-                break
-            r0, _ = attempt(sub, min(timeout_s, 10) * 1000)
+            if len(sub) == len(ob.assumptions) or len(sub) in tried:
+                continue
+            tried.add(len(sub))
+            r0, _ = attempt(sub, min(timeout_s, 2) * 1000)   # proofs that exist are found at once; do not linger
             if r0 == z3.unsat:
                 ob.verdict = "proved"
                 ob.time = time.time() - t0
@@ -218,6 +220,12 @@ def discharge(ob: Ob, timeout_s: int, use_cvc5=True):
     # 3. everything, full budget (after the cheap refutation attempts)
     if r == z3.unknown and timeout_s > 4:
         r, s = attempt(ob.assumptions, timeout_s * 1000)
+    if r == z3.unknown and timeout_s > 4 and len(ob.assumptions) > 12:
+        sub = relevant(ob.assumptions, to_z3(goal), 2)
+        if len(sub) < len(ob.assumptions):
+            r0, _ = attempt(sub, timeout_s * 1000)
+            if r0 == z3.unsat:
+                r = z3.unsat
     if r == z3.unknown and use_cvc5:
         try:
             res = cvc5_check(s.to_smt2().replace("(check-sat)", "") + "\n(check-sat)\n", timeout_s)
